@@ -157,6 +157,78 @@ impl<'s> Semantics<'s> {
         Expr::trun(1, Expr::shr(expr, expr_const(bits as u64 - 1, bits))?)
     }
 
+    /// Operands of bt/bts/btr/btc: (value of the addressed element, bit offset within it, address of the
+    /// element when it is in memory and differs from the plain operand).
+    ///
+    /// With a memory base and a REGISTER bit offset the processor addresses a bit string: the element at
+    /// `address + (offset >>s log2(size)) * size/8` and bit `offset mod size` of it. Register bases and
+    /// immediate offsets take the offset modulo the operand size.
+    pub fn bit_test_operands(
+        &self,
+        block: &mut Block,
+        detail: &capstone::cs_x86,
+    ) -> Result<(Expression, Expression, Option<Expression>), Error> {
+        let op0 = &detail.operands[0];
+        let op1 = &detail.operands[1];
+
+        if op0.type_ == x86_op_type::X86_OP_MEM && op1.type_ == x86_op_type::X86_OP_REG {
+            let bits = op0.size as usize * 8;
+            let offset = self.operand_load(block, op1)?;
+            let address = self.mode().operand_value(op0, self.instruction())?;
+            let address_bits = address.bits();
+
+            let log2 = bits.trailing_zeros() as u64;
+            let index = Expr::sra(offset.clone(), expr_const(log2, offset.bits()))?;
+            let index = match offset.bits().cmp(&address_bits) {
+                std::cmp::Ordering::Less => Expr::sext(address_bits, index)?,
+                std::cmp::Ordering::Greater => Expr::trun(address_bits, index)?,
+                std::cmp::Ordering::Equal => index,
+            };
+            let address = Expr::add(
+                address,
+                Expr::mul(index, expr_const((bits / 8) as u64, address_bits))?,
+            )?;
+
+            let element = Scalar::temp(self.instruction().address, bits);
+            block.load(element.clone(), address.clone());
+
+            let offset = Expr::and(offset.clone(), expr_const(bits as u64 - 1, offset.bits()))?;
+            return Ok((element.into(), offset, Some(address)));
+        }
+
+        let base = self.operand_load(block, op0)?;
+        let mut offset = self.operand_load(block, op1)?;
+
+        // let's ensure we have equal sorts
+        if offset.bits() != base.bits() {
+            let temp = self.temp(0, base.bits());
+            block.assign(temp.clone(), Expr::zext(base.bits(), offset.clone())?);
+            offset = temp.into();
+        }
+
+        // register bases and immediate offsets take the bit offset modulo the operand size
+        offset = Expr::and(offset, expr_const(base.bits() as u64 - 1, base.bits()))?;
+
+        Ok((base, offset, None))
+    }
+
+    /// Stores the modified element of bts/btr/btc back where `bit_test_operands` took it from.
+    pub fn bit_test_store(
+        &self,
+        block: &mut Block,
+        detail: &capstone::cs_x86,
+        address: Option<Expression>,
+        value: Expression,
+    ) -> Result<(), Error> {
+        match address {
+            Some(address) => {
+                block.store(address, value);
+                Ok(())
+            }
+            None => self.operand_store(block, &detail.operands[0], value),
+        }
+    }
+
     /// Returns a condition which is true if a conditional instruction should be
     /// executed. Used for setcc, jcc and cmovcc.
     pub fn cc_condition(&self) -> Result<Expression, Error> {
@@ -823,22 +895,7 @@ impl<'s> Semantics<'s> {
             let block = control_flow_graph.new_block()?;
 
             // get started
-            let base = self.operand_load(block, &detail.operands[0])?;
-            let mut offset = self.operand_load(block, &detail.operands[1])?;
-
-            // let's ensure we have equal sorts
-            if offset.bits() != base.bits() {
-                let temp = self.temp(0, base.bits());
-                block.assign(temp.clone(), Expr::zext(base.bits(), offset.clone())?);
-                offset = temp.into();
-            }
-
-            // register bases and immediate offsets take the bit offset modulo the operand size
-            if detail.operands[0].type_ == x86_op_type::X86_OP_REG
-                || detail.operands[1].type_ == x86_op_type::X86_OP_IMM
-            {
-                offset = Expr::and(offset, expr_const(base.bits() as u64 - 1, base.bits()))?;
-            }
+            let (base, offset, _) = self.bit_test_operands(block, &detail)?;
 
             let temp = self.temp(0, base.bits());
             block.assign(temp.clone(), Expr::shr(base, offset)?);
@@ -874,22 +931,7 @@ impl<'s> Semantics<'s> {
             let block = control_flow_graph.new_block()?;
 
             // get started
-            let base = self.operand_load(block, &detail.operands[0])?;
-            let mut offset = self.operand_load(block, &detail.operands[1])?;
-
-            // let's ensure we have equal sorts
-            if offset.bits() != base.bits() {
-                let temp = self.temp(0, base.bits());
-                block.assign(temp.clone(), Expr::zext(base.bits(), offset.clone())?);
-                offset = temp.into();
-            }
-
-            // register bases and immediate offsets take the bit offset modulo the operand size
-            if detail.operands[0].type_ == x86_op_type::X86_OP_REG
-                || detail.operands[1].type_ == x86_op_type::X86_OP_IMM
-            {
-                offset = Expr::and(offset, expr_const(base.bits() as u64 - 1, base.bits()))?;
-            }
+            let (base, offset, address) = self.bit_test_operands(block, &detail)?;
 
             // this handles the assign to CF
             let temp = self.temp(1, base.bits());
@@ -898,7 +940,7 @@ impl<'s> Semantics<'s> {
 
             let expr = Expr::shl(expr_const(1, base.bits()), offset)?;
             let expr = Expr::xor(base, expr)?;
-            self.operand_store(block, &detail.operands[0], expr)?;
+            self.bit_test_store(block, &detail, address, expr)?;
 
             block.index()
         };
@@ -930,22 +972,7 @@ impl<'s> Semantics<'s> {
             let block = control_flow_graph.new_block()?;
 
             // get started
-            let base = self.operand_load(block, &detail.operands[0])?;
-            let mut offset = self.operand_load(block, &detail.operands[1])?;
-
-            // let's ensure we have equal sorts
-            if offset.bits() != base.bits() {
-                let temp = self.temp(0, base.bits());
-                block.assign(temp.clone(), Expr::zext(base.bits(), offset.clone())?);
-                offset = temp.into();
-            }
-
-            // register bases and immediate offsets take the bit offset modulo the operand size
-            if detail.operands[0].type_ == x86_op_type::X86_OP_REG
-                || detail.operands[1].type_ == x86_op_type::X86_OP_IMM
-            {
-                offset = Expr::and(offset, expr_const(base.bits() as u64 - 1, base.bits()))?;
-            }
+            let (base, offset, address) = self.bit_test_operands(block, &detail)?;
 
             // this handles the assign to CF
             let temp = self.temp(1, base.bits());
@@ -956,7 +983,7 @@ impl<'s> Semantics<'s> {
             let expr = Expr::xor(expr, expr_const(0xffff_ffff_ffff_ffff, base.bits()))?;
             let expr = Expr::and(base, expr)?;
 
-            self.operand_store(block, &detail.operands[0], expr)?;
+            self.bit_test_store(block, &detail, address, expr)?;
 
             block.index()
         };
@@ -988,22 +1015,7 @@ impl<'s> Semantics<'s> {
             let block = control_flow_graph.new_block()?;
 
             // get started
-            let base = self.operand_load(block, &detail.operands[0])?;
-            let mut offset = self.operand_load(block, &detail.operands[1])?;
-
-            // let's ensure we have equal sorts
-            if offset.bits() != base.bits() {
-                let temp = self.temp(0, base.bits());
-                block.assign(temp.clone(), Expr::zext(base.bits(), offset.clone())?);
-                offset = temp.into();
-            }
-
-            // register bases and immediate offsets take the bit offset modulo the operand size
-            if detail.operands[0].type_ == x86_op_type::X86_OP_REG
-                || detail.operands[1].type_ == x86_op_type::X86_OP_IMM
-            {
-                offset = Expr::and(offset, expr_const(base.bits() as u64 - 1, base.bits()))?;
-            }
+            let (base, offset, address) = self.bit_test_operands(block, &detail)?;
 
             // this handles the assign to CF
             let temp = self.temp(1, base.bits());
@@ -1013,7 +1025,7 @@ impl<'s> Semantics<'s> {
             let expr = Expr::shl(expr_const(1, base.bits()), offset)?;
             let expr = Expr::or(base, expr)?;
 
-            self.operand_store(block, &detail.operands[0], expr)?;
+            self.bit_test_store(block, &detail, address, expr)?;
 
             block.index()
         };
